@@ -157,3 +157,26 @@ func GenClocTree(t *tape.Tape) []TreeFile {
 	}
 	return out
 }
+
+// GenGoFile draws a small Go source file with several structs, interfaces and methods
+// (carrier for the Go front-end's map-collected data structures).
+func GenGoFile(t *tape.Tape) string {
+	names := []string{"Zeta", "Alpha", "Mid", "Beta", "Omega"}
+	n := t.Int(2, 5)
+	var b []string
+	b = append(b, "package demo", "", "import \"fmt\"", "")
+	perm := t.Perm(len(names))
+	for i := 0; i < n; i++ {
+		nm := names[perm[i]]
+		if t.Bool(1, 4) {
+			b = append(b, fmt.Sprintf("type %s interface {", nm), "\tRun(x int) string", "\tStop()", "}", "")
+			continue
+		}
+		b = append(b, fmt.Sprintf("type %s struct {", nm), "\tName string", "\tSize int", "}", "")
+		for m := 0; m < t.Int(0, 2); m++ {
+			b = append(b, fmt.Sprintf("func (r *%s) M%d(v int) int {", nm, m), "\tfmt.Println(v)", "\treturn v", "}", "")
+		}
+	}
+	b = append(b, "func Free(a string) {", "\tfmt.Println(a)", "}")
+	return strings.Join(b, "\n") + "\n"
+}
